@@ -481,11 +481,23 @@ v("C02", "finish-error-frame-conditional", "inprocgrpc/in_process.go",
   """	s.trailers = nil
 
 	if err != nil {
+		// Like the standard transport, report an error that is not a status
+		// error as one: the client would take a raw io.EOF for the normal
+		// end of the stream.
+		if _, ok := status.FromError(err); !ok {
+			err = status.FromContextError(err).Err()
+		}
 		_ = writeMessage(s.ctx, nil, s.responses, frame{err: err})
 	}""", """	hadTrailers := len(s.trailers) > 0
 	s.trailers = nil
 
 	if err != nil && (hadTrailers || s.state != streamStateHeaders) {
+		// Like the standard transport, report an error that is not a status
+		// error as one: the client would take a raw io.EOF for the normal
+		// end of the stream.
+		if _, ok := status.FromError(err); !ok {
+			err = status.FromContextError(err).Err()
+		}
 		_ = writeMessage(s.ctx, nil, s.responses, frame{err: err})
 	}""", "R2", "error-frame", "error frame skipped when the handler failed before sending anything")
 v("C02", "stream-no-ok-rewrite", "httpgrpc/server.go",
@@ -999,8 +1011,20 @@ v("C03", "finish-error-before-trailers", "inprocgrpc/in_process.go",
 	s.trailers = nil
 
 	if err != nil {
+		// Like the standard transport, report an error that is not a status
+		// error as one: the client would take a raw io.EOF for the normal
+		// end of the stream.
+		if _, ok := status.FromError(err); !ok {
+			err = status.FromContextError(err).Err()
+		}
 		_ = writeMessage(s.ctx, nil, s.responses, frame{err: err})
 	}""", """	if err != nil {
+		// Like the standard transport, report an error that is not a status
+		// error as one: the client would take a raw io.EOF for the normal
+		// end of the stream.
+		if _, ok := status.FromError(err); !ok {
+			err = status.FromContextError(err).Err()
+		}
 		_ = writeMessage(s.ctx, nil, s.responses, frame{err: err})
 	}
 
@@ -1575,12 +1599,21 @@ silent_all("finish-guard-clause", [
     {"file": "inprocgrpc/in_process.go", "old": """	s.trailers = nil
 
 	if err != nil {
+		// Like the standard transport, report an error that is not a status
+		// error as one: the client would take a raw io.EOF for the normal
+		// end of the stream.
+		if _, ok := status.FromError(err); !ok {
+			err = status.FromContextError(err).Err()
+		}
 		_ = writeMessage(s.ctx, nil, s.responses, frame{err: err})
 	}
 }""", "new": """	s.trailers = nil
 
 	if err == nil {
 		return
+	}
+	if _, ok := status.FromError(err); !ok {
+		err = status.FromContextError(err).Err()
 	}
 	_ = writeMessage(s.ctx, nil, s.responses, frame{err: err})
 }"""},
@@ -1818,6 +1851,124 @@ v("C04", "shadowed-reader-error", "httpgrpc/client.go",
 v("C04", "trailer-dropped-when-ctx-done", "httpgrpc/server.go",
   "		if str.writeFailed {\n			// nothing else we can do", "		if str.writeFailed || ctx.Err() != nil {\n			// nothing else we can do", "R6", "one-trailer",
   "server drops the trailer when its (timeout-derived) context is done: the handler's DeadlineExceeded never reaches the client")
+
+C09_OLD = '\ttimeout := h.Get("GRPC-Timeout")\n\tif timeout != "" {\n\t\t// See GRPC wire format, "Timeout" component of request: https://grpc.io/docs/guides/wire.html#requests\n\t\tsuffix := timeout[len(timeout)-1]\n\t\tif timeoutVal, err := strconv.ParseInt(timeout[:len(timeout)-1], 10, 64); err == nil {\n\t\t\tvar unit time.Duration\n\t\t\tswitch suffix {\n\t\t\tcase \'H\':\n\t\t\t\tunit = time.Hour\n\t\t\tcase \'M\':\n\t\t\t\tunit = time.Minute\n\t\t\tcase \'S\':\n\t\t\t\tunit = time.Second\n\t\t\tcase \'m\':\n\t\t\t\tunit = time.Millisecond\n\t\t\tcase \'u\':\n\t\t\t\tunit = time.Microsecond\n\t\t\tcase \'n\':\n\t\t\t\tunit = time.Nanosecond\n\t\t\t}\n\t\t\tif unit != 0 {\n\t\t\t\t// saturate instead of wrapping around for huge values\n\t\t\t\td := time.Duration(math.MaxInt64)\n\t\t\t\tif timeoutVal <= math.MaxInt64/int64(unit) {\n\t\t\t\t\td = time.Duration(timeoutVal) * unit\n\t\t\t\t}\n\t\t\t\tctx, cancel = context.WithTimeout(ctx, d)\n\t\t\t}\n\t\t}\n\t}\n\treturn ctx, cancel, nil\n}'
+v("C09", "timeout-parse-helper-ok", "httpgrpc/server.go", C09_OLD, '\tif d, ok := parseTimeout(h.Get("GRPC-Timeout")); ok {\n\t\tctx, cancel = context.WithTimeout(ctx, d)\n\t}\n\treturn ctx, cancel, nil\n}\n\n// parseTimeout decodes the value of a GRPC-Timeout header; ok is false if the\n// header is absent or is not a well-formed timeout.\nfunc parseTimeout(timeout string) (time.Duration, bool) {\n\tif timeout == "" {\n\t\treturn 0, false\n\t}\n\tsuffix := timeout[len(timeout)-1]\n\ttimeoutVal, err := strconv.ParseInt(timeout[:len(timeout)-1], 10, 64)\n\tif err != nil {\n\t\treturn 0, false\n\t}\n\tvar unit time.Duration\n\tswitch suffix {\n\tcase \'H\':\n\t\tunit = time.Hour\n\tcase \'M\':\n\t\tunit = time.Minute\n\tcase \'S\':\n\t\tunit = time.Second\n\tcase \'m\':\n\t\tunit = time.Millisecond\n\tcase \'u\':\n\t\tunit = time.Microsecond\n\tcase \'n\':\n\t\tunit = time.Nanosecond\n\tdefault:\n\t\treturn 0, false\n\t}\n\t// saturate instead of wrapping around for huge values\n\tif timeoutVal > math.MaxInt64/int64(unit) {\n\t\treturn time.Duration(math.MaxInt64), true\n\t}\n\treturn time.Duration(timeoutVal) * unit, true\n}', silent=True, why="the header parsing moved into a helper returning (duration, ok): same behaviour")
+v("C09", "timeout-parse-helper-zero-absent", "httpgrpc/server.go", C09_OLD, '\tif d := parseTimeout(h.Get("GRPC-Timeout")); d != 0 {\n\t\tctx, cancel = context.WithTimeout(ctx, d)\n\t}\n\treturn ctx, cancel, nil\n}\n\n// parseTimeout decodes the value of a GRPC-Timeout header; ok is false if the\n// header is absent or is not a well-formed timeout.\nfunc parseTimeout(timeout string) time.Duration {\n\tif timeout == "" {\n\t\treturn 0\n\t}\n\tsuffix := timeout[len(timeout)-1]\n\ttimeoutVal, err := strconv.ParseInt(timeout[:len(timeout)-1], 10, 64)\n\tif err != nil {\n\t\treturn 0\n\t}\n\tvar unit time.Duration\n\tswitch suffix {\n\tcase \'H\':\n\t\tunit = time.Hour\n\tcase \'M\':\n\t\tunit = time.Minute\n\tcase \'S\':\n\t\tunit = time.Second\n\tcase \'m\':\n\t\tunit = time.Millisecond\n\tcase \'u\':\n\t\tunit = time.Microsecond\n\tcase \'n\':\n\t\tunit = time.Nanosecond\n\tdefault:\n\t\treturn 0\n\t}\n\t// saturate instead of wrapping around for huge values\n\tif timeoutVal > math.MaxInt64/int64(unit) {\n\t\treturn time.Duration(math.MaxInt64)\n\t}\n\treturn time.Duration(timeoutVal) * unit\n}', "R4", "zero-means-absent", "helper returns 0 for absent/malformed and the caller tests d != 0: a valid zero timeout gives the handler no deadline")
+v("C09", "timeout-zero-skipped-inline", "httpgrpc/server.go", C09_OLD, '\ttimeout := h.Get("GRPC-Timeout")\n\tif timeout != "" {\n\t\t// See GRPC wire format, "Timeout" component of request: https://grpc.io/docs/guides/wire.html#requests\n\t\tsuffix := timeout[len(timeout)-1]\n\t\tif timeoutVal, err := strconv.ParseInt(timeout[:len(timeout)-1], 10, 64); err == nil {\n\t\t\tvar unit time.Duration\n\t\t\tswitch suffix {\n\t\t\tcase \'H\':\n\t\t\t\tunit = time.Hour\n\t\t\tcase \'M\':\n\t\t\t\tunit = time.Minute\n\t\t\tcase \'S\':\n\t\t\t\tunit = time.Second\n\t\t\tcase \'m\':\n\t\t\t\tunit = time.Millisecond\n\t\t\tcase \'u\':\n\t\t\t\tunit = time.Microsecond\n\t\t\tcase \'n\':\n\t\t\t\tunit = time.Nanosecond\n\t\t\t}\n\t\t\tif unit != 0 {\n\t\t\t\t// saturate instead of wrapping around for huge values\n\t\t\t\td := time.Duration(math.MaxInt64)\n\t\t\t\tif timeoutVal <= math.MaxInt64/int64(unit) {\n\t\t\t\t\td = time.Duration(timeoutVal) * unit\n\t\t\t\t}\n\t\t\t\tif d > 0 {\n\t\t\t\t\tctx, cancel = context.WithTimeout(ctx, d)\n\t\t\t\t}\n\t\t\t}\n\t\t}\n\t}\n\treturn ctx, cancel, nil\n}', "R4", "deadline-for-every-valid-value", "the deadline is applied only if d > 0")
+v("C09", "client-seconds-roundup", "httpgrpc/client.go",
+  "		h.Set(\"GRPC-Timeout\", fmt.Sprintf(\"%dm\", millis))", """		value, unit := millis, "m"
+		if value > 99999999 {
+			value, unit = (millis+999)/1000, "S"
+		}
+		h.Set("GRPC-Timeout", fmt.Sprintf("%d%s", value, unit))""", "R3", "floor", "long deadlines sent in seconds rounded up: the handler gets up to 1 s more than the caller has")
+v("C09", "client-seconds-floor", "httpgrpc/client.go",
+  "		h.Set(\"GRPC-Timeout\", fmt.Sprintf(\"%dm\", millis))", """		value, unit := millis, "m"
+		if value > 99999999 {
+			value, unit = millis/1000, "S"
+		}
+		h.Set("GRPC-Timeout", fmt.Sprintf("%d%s", value, unit))""", silent=True, why="long deadlines sent in whole seconds, floored: never later than the caller's")
+v("C09", "client-seconds-wrong-letter", "httpgrpc/client.go",
+  "		h.Set(\"GRPC-Timeout\", fmt.Sprintf(\"%dm\", millis))", """		value, unit := millis, "m"
+		if value > 99999999 {
+			value, unit = millis/1000, "M"
+		}
+		h.Set("GRPC-Timeout", fmt.Sprintf("%d%s", value, unit))""", "R2", "unit-agreement:M", "seconds sent with the minutes letter")
+
+# ------------------------------------------------------------------ wave-2 rules (C08-C14) and D16
+v("C02", "d16-raw-handler-error-in-frame", "inprocgrpc/in_process.go",
+  """		if _, ok := status.FromError(err); !ok {
+			err = status.FromContextError(err).Err()
+		}
+		_ = writeMessage(s.ctx, nil, s.responses, frame{err: err})""", """		_ = writeMessage(s.ctx, nil, s.responses, frame{err: err})""", "R5", "error-frame:is-status-error", "pre-fix D16: a handler's io.EOF ends the client's stream with the success sentinel")
+v("C02", "error-frame-convert-negated-form", "inprocgrpc/in_process.go",
+  """		if _, ok := status.FromError(err); !ok {
+			err = status.FromContextError(err).Err()
+		}
+		_ = writeMessage(s.ctx, nil, s.responses, frame{err: err})""", """		if _, isStatus := status.FromError(err); isStatus {
+			// already a status error
+		} else {
+			err = status.FromContextError(err).Err()
+		}
+		_ = writeMessage(s.ctx, nil, s.responses, frame{err: err})""", silent=True, why="same conversion, written with the positive test and an empty arm")
+v("C02", "status-message-escaped-one-side", "httpgrpc/server.go",
+  """fmt.Sprintf("%d:%s", statProto.Code, statProto.Message)""", """fmt.Sprintf("%d:%s", statProto.Code, url.PathEscape(statProto.Message))""", "R3", "codec-agreement", "server escapes the status message, client takes it verbatim",
+  edits=[{"file": "httpgrpc/server.go", "old": """fmt.Sprintf("%d:%s", statProto.Code, statProto.Message)""", "new": """fmt.Sprintf("%d:%s", statProto.Code, url.PathEscape(statProto.Message))"""},
+         {"file": "httpgrpc/server.go", "old": "import (\n", "new": "import (\n	\"net/url\"\n"}])
+v("C02", "status-message-escaped-both-sides", "", "", "", silent=True, why="server escapes and client unescapes with the inverse function",
+  edits=[{"file": "httpgrpc/server.go", "old": """fmt.Sprintf("%d:%s", statProto.Code, statProto.Message)""", "new": """fmt.Sprintf("%d:%s", statProto.Code, url.PathEscape(statProto.Message))"""},
+         {"file": "httpgrpc/server.go", "old": "import (\n", "new": "import (\n	\"net/url\"\n"},
+         {"file": "httpgrpc/client.go", "old": """		if len(codeStrs) > 1 {
+			msg = codeStrs[1]
+		}""", "new": """		if len(codeStrs) > 1 {
+			if m, uerr := url.PathUnescape(codeStrs[1]); uerr == nil {
+				msg = m
+			}
+		}"""}])
+v("C02", "status-message-trimmed-client", "httpgrpc/client.go",
+  "			msg = codeStrs[1]", "			msg = strings.TrimSpace(codeStrs[1])", "R3", "statFromResponse:message-verbatim", "client trims the status message")
+
+v("C08", "probe-on-raw-body-after-bufio", "", "", "", "R3", "one-reader", "messages read through a bufio.Reader, the second-request probe from the raw body",
+  edits=[{"file": "httpgrpc/server.go", "old": "	size, err := readSizePreface(s.r.Body)\n	if err != nil {\n		return err\n	}\n\n	err = readProtoMessage(s.r.Body, s.codec, size, m)", "new": "	br := bufio.NewReader(s.r.Body)\n	size, err := readSizePreface(br)\n	if err != nil {\n		return err\n	}\n\n	err = readProtoMessage(br, s.codec, size, m)"},
+         {"file": "httpgrpc/server.go", "old": "import (\n", "new": "import (\n	\"bufio\"\n"}])
+v("C08", "body-in-local-variable", "httpgrpc/server.go",
+  "	size, err := readSizePreface(s.r.Body)\n	if err != nil {\n		return err\n	}\n\n	err = readProtoMessage(s.r.Body, s.codec, size, m)", "	body := s.r.Body\n	size, err := readSizePreface(body)\n	if err != nil {\n		return err\n	}\n\n	err = readProtoMessage(body, s.codec, size, m)", silent=True, why="the body is held in a local for the first two reads: still one reader")
+
+v("C11", "cancel-deferred-before-error-check", "", "", "", "R7", "call-of-result", "contextFromHeaders returns a nil cancel on error and the handlers defer it before checking the error",
+  edits=[{"file": "httpgrpc/server.go", "old": "		return parent, cancel, err\n", "new": "		return nil, nil, err\n"},
+         {"file": "httpgrpc/server.go", "old": """		ctx, cancel, err := contextFromHeaders(ctx, r.Header)
+		if err != nil {
+			writeError(w, http.StatusBadRequest)
+			return
+		}
+		defer cancel()
+
+		req, err := ioutil.ReadAll(r.Body)""", "new": """		ctx, cancel, err := contextFromHeaders(ctx, r.Header)
+		defer cancel()
+		if err != nil {
+			writeError(w, http.StatusBadRequest)
+			return
+		}
+
+		req, err := ioutil.ReadAll(r.Body)"""}])
+v("C11", "nil-cancel-on-error-but-checked-first", "httpgrpc/server.go",
+  "		return parent, cancel, err\n", "		return nil, nil, err\n", silent=True, why="nil cancel is returned only with an error, and both handlers check the error before deferring it")
+v("C11", "json-empty-body-accepted", "httpgrpc/json.go",
+  """	msg := proto.MessageV2(v.(proto.Message))
+	return grpcJsonUnmarshaler.Unmarshal(data, msg)""", """	msg := proto.MessageV2(v.(proto.Message))
+	if len(data) == 0 {
+		return nil
+	}
+	return grpcJsonUnmarshaler.Unmarshal(data, msg)""", "R8", "jsonCodec).Unmarshal", "empty body accepted as an empty message by the JSON codec")
+v("C11", "json-unmarshal-via-local", "httpgrpc/json.go",
+  """	return grpcJsonUnmarshaler.Unmarshal(data, msg)""", """	err := grpcJsonUnmarshaler.Unmarshal(data, msg)
+	if err != nil {
+		return err
+	}
+	return nil""", silent=True, why="same decode, error handled through a local")
+
+v("C13", "peer-only-with-header-option", "httpgrpc/client.go",
+  """	if len(copts.Peer) > 0 {
+		copts.SetPeer(getPeer(ch.BaseURL, reply.TLS))
+	}
+
+	// gather headers and trailers
+	if len(copts.Headers) > 0 || len(copts.Trailers) > 0 {""", """	// gather peer, headers and trailers
+	if len(copts.Headers) > 0 || len(copts.Trailers) > 0 {
+		copts.SetPeer(getPeer(ch.BaseURL, reply.TLS))""", "R3", "peer-option-alone-suffices", "unary: the peer is reported only when a header or trailer option is present too")
+v("C13", "peer-set-unconditionally", "httpgrpc/client.go",
+  """	if len(copts.Peer) > 0 {
+		copts.SetPeer(getPeer(ch.BaseURL, reply.TLS))
+	}
+
+	// gather headers and trailers""", """	copts.SetPeer(getPeer(ch.BaseURL, reply.TLS))
+
+	// gather headers and trailers""", silent=True, why="SetPeer with no targets is a no-op: unconditional call")
+
+v("C14", "fallback-only-for-4xx-5xx", "httpgrpc/client.go",
+  "	code := codeFromHttpStatus(reply.StatusCode)\n", "	code := codes.OK\n	if reply.StatusCode >= 400 {\n		code = codeFromHttpStatus(reply.StatusCode)\n	}\n", "R3", "fallback-for-every-status", "headerless 1xx/3xx replies classified OK")
+v("C14", "fallback-via-local", "httpgrpc/client.go",
+  "	code := codeFromHttpStatus(reply.StatusCode)\n", "	httpStatus := reply.StatusCode\n	code := codeFromHttpStatus(httpStatus)\n", silent=True, why="status code held in a local")
 
 
 def main():
